@@ -175,7 +175,7 @@ def run_one(job, anchor_map, out):
             handle.write(mutated)
         env = dict(os.environ, POLYPLY_REPO=wt)
         try:
-            proc = subprocess.run(["timeout", "-k", "5", "900", "python3", os.path.join(VERIF, "tools", "baseline.py")],
+            proc = subprocess.run(["timeout", "-k", "5", "240", "python3", os.path.join(VERIF, "tools", "baseline.py")],
                                   env=env, stdout=subprocess.PIPE, stderr=subprocess.STDOUT, text=True)
         except subprocess.SubprocessError:
             return "%s:%d %s | suite=error" % (name, site[1], site[0])
